@@ -47,7 +47,7 @@ def classify(call):
 def run(ctx):
     repo = ctx.repo
     res = Result(PROP)
-    res.rules = ["Q-ORDER", "Q-FLAG", "Q-COPY", "Q-LABEL", "Q-SUB"]
+    res.rules = ["Q-ORDER", "Q-FLAG", "Q-COPY", "Q-LABEL", "Q-SUB", "Q-UNION", "Q-DUAL"]
     res.explanation = (
         "Narrow claim: the cleanup methods of the three classes are conjunctions of steps whose guarantees hold only in one "
         "order; steps are identified at their call sites, their mutual order is decided by reachability on the CFG, their "
@@ -68,6 +68,7 @@ def run(ctx):
         check_cleanup(repo, res, m, cname)
     res.floor("cleanup methods", n, 3)
     check_relabel(repo, res)
+    check_union_dual(repo, res)
     gv = repo.modules.get("xgi.core.globalviews")
     sub = gv.functions.get("subhypergraph") if gv else None
     if sub is None:
@@ -284,6 +285,98 @@ def label_last(helper, old_params, label_param):
     if attrs_at > label_at:
         return False, "merges the old attributes AFTER the recorded label, so an existing attribute of the same name overwrites the old ID that was to be recorded (relabelling twice, or data that already has such an attribute, records stale labels)"
     return True, ""
+
+
+def _mentions_table(expr, owner, names):
+    """expr reads owner.<one of names> (e.g. self._node / H2.nodes)."""
+    return any(isinstance(n, ast.Attribute) and n.attr in names and isinstance(n.value, ast.Name) and n.value.id == owner for n in ast.walk(expr))
+
+
+def check_union_dual(repo, res):
+    """Q-UNION: H1 << H2 transfers the nodes, the edges and the network attributes of BOTH operands into the result.
+    Q-DUAL: the dual gets one edge per node of the source (members = its memberships, ID = the node, its attributes),
+    one node per edge of the source (so empty edges survive as isolated nodes) and the network attributes."""
+    ci = repo.get_class("Hypergraph")
+    m = ci.methods.get("__lshift__")
+    if m is None:
+        raise AnalysisError("Hypergraph.__lshift__ not found (anchor vanished)")
+    new = None
+    for st in own_statements(m.node):
+        if isinstance(st, ast.Assign) and isinstance(st.value, ast.Call) and isinstance(st.targets[0], ast.Name) and getattr(st.value.func, "id", getattr(st.value.func, "attr", "")) in ("Hypergraph", "__class__"):
+            new = st.targets[0].id
+    if new is None:
+        raise AnalysisError("Hypergraph.__lshift__: result network not found (extractor does not recognise the code)")
+    calls = [(st, c) for st in own_statements(m.node) for c in own_nodes(st) if isinstance(c, ast.Call) and isinstance(c.func, ast.Attribute) and isinstance(c.func.value, ast.Name) and c.func.value.id == new]
+    for owner in (m.params[0], m.params[1]):
+        for what, meth, names in (("nodes", "add_nodes_from", ("_node", "nodes")), ("edges", "add_edges_from", ("_edge", "edges"))):
+            ok = any(c.func.attr == meth and c.args and _mentions_table(c.args[0], owner, names) for _, c in calls)
+            res.inst("Q-UNION", f"Hypergraph.__lshift__ transfers the {what} of `{owner}`", ok)
+            if not ok:
+                res.add(mk_finding(PROP, "Q-UNION", m, m.node, f"Hypergraph.__lshift__ does not hand the {what} of `{owner}` to {new}.{meth}(); the result is not the union of both operands (isolated nodes and node attributes of `{owner}` are lost)" if what == "nodes" else f"Hypergraph.__lshift__ does not hand the {what} of `{owner}` to {new}.{meth}(); the result is not the union of both operands", role=f"{owner}:{what}"))
+        ok = any(_mentions_table(st, owner, ("_net_attr",)) and any(isinstance(n, ast.Attribute) and n.attr == "_net_attr" and isinstance(n.value, ast.Name) and n.value.id == new for n in ast.walk(st)) for st in own_statements(m.node))
+        res.inst("Q-UNION", f"Hypergraph.__lshift__ transfers the network attributes of `{owner}`", ok)
+        if not ok:
+            res.add(mk_finding(PROP, "Q-UNION", m, m.node, f"Hypergraph.__lshift__ does not merge the network attributes of `{owner}` into the result", role=f"{owner}:net"))
+    # ---- dual
+    d = ci.methods.get("dual")
+    if d is None:
+        raise AnalysisError("Hypergraph.dual not found (anchor vanished)")
+    src = d.params[0]
+    new = None
+    for st in own_statements(d.node):
+        if isinstance(st, ast.Assign) and isinstance(st.value, ast.Call) and isinstance(st.targets[0], ast.Name) and getattr(st.value.func, "attr", getattr(st.value.func, "id", "")) in ("__class__", "Hypergraph"):
+            new = st.targets[0].id
+    if new is None:
+        raise AnalysisError("Hypergraph.dual: result network not found (extractor does not recognise the code)")
+    views = {}
+    for st in own_statements(d.node):
+        if isinstance(st, ast.Assign) and isinstance(st.targets[0], ast.Name) and isinstance(st.value, ast.Attribute) and st.value.attr in ("nodes", "edges") and isinstance(st.value.value, ast.Name) and st.value.value.id == src:
+            views[st.targets[0].id] = st.value.attr
+
+    def view_of(e):
+        for n in ast.walk(e):
+            if isinstance(n, ast.Name) and n.id in views:
+                return views[n.id]
+            if isinstance(n, ast.Attribute) and n.attr in ("nodes", "edges", "_node", "_edge") and isinstance(n.value, ast.Name) and n.value.id == src:
+                return {"_node": "nodes", "_edge": "edges"}.get(n.attr, n.attr)
+        return None
+
+    got = {"edges": None, "nodes": None}
+    for st in own_statements(d.node):
+        for c in own_nodes(st):
+            if isinstance(c, ast.Call) and isinstance(c.func, ast.Attribute) and isinstance(c.func.value, ast.Name) and c.func.value.id == new and c.func.attr in ("add_edges_from", "add_nodes_from") and c.args:
+                g = c.args[0]
+                if isinstance(g, (ast.GeneratorExp, ast.ListComp)) and len(g.generators) == 1 and not g.generators[0].ifs:
+                    got["edges" if c.func.attr == "add_edges_from" else "nodes"] = (st, g, view_of(g.generators[0].iter))
+    # edges of the dual: one per NODE of the source
+    e = got["edges"]
+    ok = False
+    why = "add_edges_from over the node view not found"
+    if e is not None:
+        st, g, v = e
+        tgt = g.generators[0].target
+        key = tgt.elts[0].id if isinstance(tgt, ast.Tuple) and isinstance(tgt.elts[0], ast.Name) else (tgt.id if isinstance(tgt, ast.Name) else None)
+        elt = g.elt
+        if v != "nodes":
+            why = "the edges of the dual are not generated from the (unfiltered) node view of the source"
+        elif not (isinstance(elt, ast.Tuple) and len(elt.elts) >= 2 and isinstance(elt.elts[1], ast.Name) and elt.elts[1].id == key):
+            why = "the edges of the dual are not keyed by the source's node labels"
+        elif not any(isinstance(c, ast.Call) and getattr(c.func, "attr", "") == "memberships" or (isinstance(c, ast.Subscript) and isinstance(c.value, ast.Attribute) and c.value.attr == "_node") for c in ast.walk(elt.elts[0])):
+            why = "the members of a dual edge are not the memberships of the node"
+        else:
+            ok = True
+    res.inst("Q-DUAL", "dual: one edge per node of the source, keyed by the node, members = its memberships", ok)
+    if not ok:
+        res.add(mk_finding(PROP, "Q-DUAL", d, e[0] if e else d.node, f"Hypergraph.dual: {why}", role="dual-edges"))
+    nn = got["nodes"]
+    ok = nn is not None and nn[2] == "edges"
+    res.inst("Q-DUAL", "dual: one node per edge of the source (empty edges become isolated nodes, attributes kept)", ok)
+    if not ok:
+        res.add(mk_finding(PROP, "Q-DUAL", d, d.node, "Hypergraph.dual does not add one node per edge of the source from the (unfiltered) edge view; empty edges and edge attributes are lost, and the dual of the dual is no longer the source", role="dual-nodes"))
+    ok = any(isinstance(st, ast.Assign) and any(isinstance(t, ast.Attribute) and t.attr == "_net_attr" and isinstance(t.value, ast.Name) and t.value.id == new for t in st.targets) and _mentions_table(st.value, src, ("_net_attr",)) for st in own_statements(d.node))
+    res.inst("Q-DUAL", "dual keeps the network attributes", ok)
+    if not ok:
+        res.add(mk_finding(PROP, "Q-DUAL", d, d.node, "Hypergraph.dual does not carry the network attributes over", role="dual-net"))
 
 
 def check_relabel(repo, res):
